@@ -967,6 +967,51 @@ Qed.
 End RoundTrip.
 
 (* ====================================================================================== *)
+(* the guard, from the signature as the user wrote it                                       *)
+
+Lemma not_blank_bindable n : is_blank fixed n = false -> bindable n = true.
+Proof.
+  unfold is_blank, bindable. cbn. intros H. apply orb_false_iff in H as [H1 H2].
+  rewrite H1, H2. reflexivity.
+Qed.
+
+Lemma param_name_not_f i : String.append "param_" (itoa i) <> "f".
+Proof. cbn. discriminate. Qed.
+
+Lemma rename_from_not_f pre i ps :
+  (forall j, String.append pre (itoa j) <> "f") ->
+  ~ In "f" (names ps) -> ~ In "f" (names (rename_from fixed pre i ps)).
+Proof.
+  intros Hpre Hf Hi. apply rename_from_names_in in Hi as [(Hi & _)|(j & _ & Hx)]; [tauto|].
+  symmetry in Hx. exact (Hpre j Hx).
+Qed.
+
+(* Every signature Go accepts (the names that can be referred to are pairwise distinct), whose
+   results are unnamed or blank and in which nothing is called f, is inside the guard: after the
+   fix no shape of *parameter naming* other than the name f itself is excluded. *)
+Theorem guard_from_source (ps : list (name * ty)) (rs : list name) :
+  NoDup (filter (nonblank fixed) (names ps)) ->
+  ~ In "f" (names ps) ->
+  names_form rs = true -> filter bindable rs = [] ->
+  guardb (names (rename_blank fixed "param_" ps)) rs = true.
+Proof.
+  intros Hnd Hf Hform Hrs.
+  destruct (rename_blank_spec fixed "p" "aram_" ps) as (_ & _ & Hnb & Hno & _); [discriminate|].
+  change (String "p" "aram_") with "param_" in *. cbv zeta in *.
+  assert (Hf' : ~ In "f" (names (rename_blank fixed "param_" ps))).
+  { unfold rename_blank. destruct (has_blank fixed ps); [|exact Hf].
+    apply rename_from_not_f; [apply param_name_not_f|exact Hf]. }
+  unfold guardb. rewrite Hform, Hrs, app_nil_r. rewrite !andb_true_iff. repeat split.
+  - apply forallb_forall. intros x Hx. unfold good_name. rewrite Forall_forall in Hnb.
+    rewrite (not_blank_bindable x (Hnb x Hx)). cbn.
+    apply negb_true_iff, String.eqb_neq. intros ->. exact (Hf' Hx).
+  - apply nodupb_NoDup, Hno, Hnd.
+  - apply negb_true_iff, memb_false. intros Hi.
+    assert (Hb : bindable "f" = true) by reflexivity.
+    pose proof (in_names_results "f" rs Hb Hi) as Hin. rewrite Hrs in Hin. exact Hin.
+Qed.
+
+(* ====================================================================================== *)
 (* witnesses                                                                                *)
 Definition res0 : nat -> list (list val) -> val := fun j _ => VBase (Z.of_nat j).
 Definition Ti : ty := TBase "int".
